@@ -479,3 +479,7 @@ mod tests {
         let _nulls = set_bits(&mut write_data, &data, offset_write, offset_read, len);
     }
 }
+
+#[cfg(kani)]
+#[path = "/verif/kani/arrow-buffer/util/bit_mask.rs"]
+mod verif_kani;
